@@ -119,8 +119,15 @@ class Redis(object):
         a = [str(x).upper() if isinstance(x, str) else x for x in args]
         if a[:2] == ["CLIENT", "TRACKING"]:
             if a[2] == "ON":
-                redirect = args[4] if len(args) > 4 else None
-                return self._call(self._server.client_tracking, True, redirect)
+                redirect, options, i = None, [], 3
+                while i < len(a):
+                    if a[i] == "REDIRECT" and i + 1 < len(a):
+                        redirect = args[i + 1]
+                        i += 2
+                    else:
+                        options.append(a[i])
+                        i += 1
+                return self._call(self._server.client_tracking, True, redirect, tuple(options))
             return self._call(self._server.client_tracking, False)
         raise ResponseError("unsupported command %r" % (args,))
 
